@@ -35,9 +35,9 @@ Definition parse_comment : P node :=
    (before /repo's repair an unclosed bracket swallowed the rest of the file and succeeded).
    `opt` continues at its original input when its argument fails, which is where the code puts the error. *)
 Definition annotation_body : P unit :=
-  r <- take_until [TCSqrBracket] ;;
+  r <- take_until [TCSqrBracket; TProc; TFunc; TEndProc; TEndFunc; TEnd] ;;
   match snd r with
-  | Some _ => ret tt
+  | Some t => if tt_eqb (tty t) TCSqrBracket then ret tt else fail S_Annotation_is_not_closed
   | None => fail S_Annotation_is_not_closed
   end.
 
